@@ -486,7 +486,9 @@ func TestC08(t *testing.T) {
 			for _, rule := range pairRules(a, bb) {
 				for _, act := range actions {
 					x.runCase("pair", caseDef{Mesh: mesh0, Pols: []polSpec{{Action: act, Rules: []ruleSpec{rule}}}}, false)
-					if thorough && (a.def().dim == dPeer || bb.def().dim == dPeer) {
+					// identities under a trust-domain alias: quick when both conditions are about the peer
+					// identity (values + notValues of one field among them), thorough when either is
+					if pa, pb := a.def().dim == dPeer, bb.def().dim == dPeer; (pa && pb) || (thorough && (pa || pb)) {
 						x.runCase("pair-aliases", caseDef{Mesh: mesh1, Pols: []polSpec{{Action: act, Rules: []ruleSpec{rule}}}}, false)
 					}
 				}
